@@ -106,10 +106,13 @@ class Type(object, metaclass=_Registered):
             _lib.L.akp_type_free(h)
 
     def __eq__(self, other):
-        return bool(_lib.rc(_lib.L.akp_type_equal(self._h, _type_arg(other, "__eq__"), 1)))
+        # a std::shared_ptr<Type> argument: None converts to a null pointer, anything else is a TypeError
+        oh = None if other is None else _type_arg(other, "__eq__")
+        return bool(_lib.rc(_lib.L.akp_type_equal(self._h, oh, 1)))
 
     def __ne__(self, other):
-        return not bool(_lib.rc(_lib.L.akp_type_equal(self._h, _type_arg(other, "__ne__"), 1)))
+        oh = None if other is None else _type_arg(other, "__ne__")
+        return not bool(_lib.rc(_lib.L.akp_type_equal(self._h, oh, 1)))
 
     __hash__ = None
 
@@ -199,6 +202,7 @@ class ArrayType(_TypeMethods, Type):
         pk, pv, n, ts = _tp(state[0], state[1])
         t = unbox_type(state[2])
         self._h = _lib.ptr(_lib.L.akp_arraytype_new(pk, pv, n, ts, t._h, cast_int64(state[3])))
+        INSTANCES.add(self)
 
 
 @_ext
@@ -219,6 +223,7 @@ class ListType(_TypeMethods, Type):
         pk, pv, n, ts = _tp(state[0], state[1])
         t = unbox_type(state[2])
         self._h = _lib.ptr(_lib.L.akp_listtype_new(pk, pv, n, ts, t._h))
+        INSTANCES.add(self)
 
 
 @_ext
@@ -239,6 +244,7 @@ class OptionType(_TypeMethods, Type):
         pk, pv, n, ts = _tp(state[0], state[1])
         t = unbox_type(state[2])
         self._h = _lib.ptr(_lib.L.akp_optiontype_new(pk, pv, n, ts, t._h))
+        INSTANCES.add(self)
 
 
 @_ext
@@ -263,6 +269,7 @@ class PrimitiveType(_TypeMethods, Type):
     def __setstate__(self, state):
         pk, pv, n, ts = _tp(state[0], state[1])
         self._h = _lib.ptr(_lib.L.akp_primitivetype_new(pk, pv, n, ts, cast_int64(state[2])))
+        INSTANCES.add(self)
 
 
 def _iterable_to_RecordType(types, keys, parameters, typestr):
@@ -362,6 +369,7 @@ class RecordType(_TypeMethods, Type):
         if not is_iterable(state[0]):
             raise CastError("Unable to cast Python instance to C++ type 'iterable'")
         self._h = _iterable_to_RecordType(state[0], state[1], state[2], state[3])
+        INSTANCES.add(self)
 
 
 @_ext
@@ -384,6 +392,7 @@ class RegularType(_TypeMethods, Type):
         pk, pv, n, ts = _tp(state[0], state[1])
         t = unbox_type(state[2])
         self._h = _lib.ptr(_lib.L.akp_regulartype_new(pk, pv, n, ts, t._h, cast_int64(state[3])))
+        INSTANCES.add(self)
 
 
 @_ext
@@ -415,6 +424,7 @@ class UnionType(_TypeMethods, Type):
         handles = [x._h for x in out]
         pk, pv, n, ts = _tp(state[0], state[1])
         self._h = _lib.ptr(_lib.L.akp_uniontype_new(pk, pv, n, ts, _lib.cptrs(handles), len(handles)))
+        INSTANCES.add(self)
 
 
 @_ext
@@ -431,6 +441,7 @@ class UnknownType(_TypeMethods, Type):
     def __setstate__(self, state):
         pk, pv, n, ts = _tp(state[0], state[1])
         self._h = _lib.ptr(_lib.L.akp_unknowntype_new(pk, pv, n, ts))
+        INSTANCES.add(self)
 
 
 Type.__module__ = "awkward._ext"
